@@ -12,6 +12,7 @@ use serde_json::{Value, json};
 pub fn gen_cases(prop: &str, seed: u64, n: u64, out: &str) {
     let mut r = Rng::derive(seed, 0xE2E, if prop == "C04" { 4 } else { 3 });
     let mut lines = Vec::new();
+    let mut silent_repeats = 0u32;
     for case in 0..n {
         let names = rn::gen_name_pool(&mut r, 4, false);
         // unique query name: the pairing of query, upstream reply and response is unambiguous
@@ -79,8 +80,15 @@ pub fn gen_cases(prop: &str, seed: u64, n: u64, out: &str) {
         }
         let repeat = prop == "C03" && r.chance(1, 5) && q.questions[0].qclass == 1;
         let mut repeat_gap = 1.3;
+        let mut repeat_upstream_silent = false;
         if repeat && r.chance(2, 3) && !up.answer.is_empty() && (!up.authority.is_empty() || !up.additional.is_empty()) {
             repeat_gap = 2.3; // that record is then more than a whole second past its end
+            // ... and for a few of them (each takes as long as the server keeps trying) the upstream has fallen silent by then:
+            // neither an upstream reply nor a live cache entry backs any record in the second response
+            if silent_repeats < 3 && transport == "udp" && r.chance(1, 2) {
+                repeat_upstream_silent = true;
+                silent_repeats += 1;
+            }
             // long-lived answers next to one authority/additional record that lives for a single second: the repeat (2.3 s
             // later) must not be served from an entry in which that record has run out
             for rr in up.answer.iter_mut() {
@@ -125,6 +133,7 @@ pub fn gen_cases(prop: &str, seed: u64, n: u64, out: &str) {
                 "advertised": q.opt.as_ref().map(|o| o.udp_size),
                 "repeat_after_s": if repeat { Some(repeat_gap) } else if second.is_some() { Some(0.3) } else { None },
                 "repeat_transport": second,
+                "repeat_upstream_silent": repeat_upstream_silent,
                 "upstream_udp_hex": upstream_udp.as_ref().map(|b| hex(b)),
                 // an upstream that truncates over UDP and then hangs up on the TCP retry: no full answer can be had
                 "upstream_tcp": if upstream_udp.is_some() && second == Some("tcp") && r.chance(1, 2) { Some("close") } else { None },
@@ -204,6 +213,32 @@ pub fn judge(prop: &str, cases_path: &str, events_path: &str) -> Leg {
         let replay = json!({"engine": format!("{}-e2e", prop.to_lowercase()), "case": case, "event": ev});
         let (q, _) = rn::decode(&qb, false).expect("generated query decodes");
         let (up, _) = rn::decode(&ub, false).expect("generated upstream reply decodes");
+        if repeat && case["repeat_upstream_silent"].as_bool() == Some(true) {
+            // the entry made from the first reply has run out (one of its records lived for a second, this is 2.3 s later) and
+            // the upstream says nothing: whatever the response is (a server failure, or none within the time the rig waits --
+            // C07's subject), it cannot carry records
+            leg.class(format!("{}|silent-upstream-after-expiry|{}", transport, if ev["response_hex"].is_null() { "no-response" } else { "response" }));
+            if let Some(h) = ev["response_hex"].as_str() {
+                match rn::decode(&unhex(h), true) {
+                    Ok((cm, _)) => {
+                        let n = all_records(&cm).len();
+                        if n > 0 {
+                            leg.violation(
+                                format!("{}/records-relayed-that-neither-an-upstream-reply-nor-a-live-cache-entry-backs", prop),
+                                format!("case {}: {} records (rcode {}) {} s after the first ask; the upstream answered once, with a record of TTL 1, and has been silent since", case["case"], n, cm.rcode(), ev["elapsed_s"]),
+                                replay,
+                            );
+                        } else {
+                            leg.count("silent_upstream_after_expiry_checked", 1);
+                        }
+                    }
+                    Err(e) => leg.violation(format!("{}/response-malformed/{}", prop, transport), e, replay),
+                }
+            } else {
+                leg.count("silent_upstream_after_expiry_no_response_in_70s", 1);
+            }
+            continue;
+        }
         let resp = match ev["response_hex"].as_str() {
             Some(h) => unhex(h),
             None => {
